@@ -194,6 +194,8 @@ class HFL(Harness):
             return out
         fval, fsd_r, idx = ret
         tag["idx"] = None if idx is None else int(idx)
+        # every path hands the value on as a scalar (it is stored in the GP statistics and the incumbent)
+        out.ob("returned_value_is_scalar", not isinstance(fval, np.ndarray))
         if op == "call":
             out.ob("func_count_plus_one", O.eq(fl.func_count, fc0 + 1, 0.0))
         else:
